@@ -276,6 +276,62 @@ fn check_decompile_run(table: &Table, masks: &[u8], times: &[i32], same_vals: bo
     }
 }
 
+
+// family (r2): a two-part conditional jump (dedicated cmp + jmp instructions) is printed as ONE `if (...) goto` statement.
+// Take the compiled pair and give the two halves every combination of stored times and difficulty masks, and
+// optionally make another jump land between them.  Oracle: as for (r).
+fn check_decompile_pair(t_cmp: i32, t_jmp: i32, d_cmp: u8, d_jmp: u8, retarget: u8) -> (String, Vec<Failure>) {
+    let table = Table::new(&TableCfg { two_part_cmp: true, ..TableCfg::FULL });
+    let mapfile = format!("{}!difficulty_flags\n0 E-\n1 N-\n2 H-\n3 L-\n4 4+\n5 5+\n6 6+\n7 7+\n", table.mapfile_text(REGS));
+    let hooks = make_language(&Pool { ints: 4, floats: 4 }, false);
+    let src = if retarget == 0 { "{ mS(1); if (A < 5) goto L1; mS(2); L1: m0(); }" } else { "{ mS(1); if (A < 5) goto L1; mS(2); L1: goto L1; }" };
+    let detail = |extra: serde_json::Value| json!({"family": "decompile-pair", "t_cmp": t_cmp, "t_jmp": t_jmp, "d_cmp": d_cmp, "d_jmp": d_jmp, "retarget": retarget, "info": extra});
+    let sigbase = format!("t=({t_cmp},{t_jmp}) d=({d_cmp:02x},{d_jmp:02x}) retarget={retarget}");
+    let base = catch(|| with_truth(&mapfile, |truth| {
+        let block = front_end(truth, src, true).map_err(|(s, d)| format!("{s}: {d}"))?;
+        let des = desugar(truth, &block)?;
+        let (i, _) = tl::lower(truth, &hooks, &des.0, false)?;
+        Ok::<_, String>(i)
+    }));
+    let mut instrs = match base { Ok(Ok(i)) if i.len() == 5 => i, other => return ("machinery".into(), vec![Failure { signature: "C13:pair-base-program-did-not-compile-to-5-instructions".into(), detail: detail(json!({"got": format!("{:?}", other.map(|r| r.map(|i| fmt_instrs(&i))))})) }]) };
+    instrs[1].time = t_cmp; instrs[2].time = t_jmp; instrs[1].difficulty = d_cmp; instrs[2].difficulty = d_jmp;
+    // keep times non-decreasing afterwards so that only the pair is unusual
+    let t_after = t_cmp.max(t_jmp); instrs[3].time = t_after; instrs[4].time = t_after;
+    if retarget > 0 {
+        let mut offs = vec![0i32]; for i in &instrs { offs.push(offs.last().unwrap() + 4 + i.args_blob.len() as i32); }
+        let target = if retarget == 1 { 2 } else { 1 };
+        instrs[4].args_blob[0..4].copy_from_slice(&offs[target].to_le_bytes());
+    }
+    let r = catch(|| with_truth(&mapfile, |truth| {
+        let options = truth::llir::DecompileOptions { blocks: false, ..Default::default() };
+        let block = tl::raise(truth, &hooks, &instrs, &options).map_err(|d| format!("raise failed: {d}"))?;
+        let diag = truth.get_captured_diagnostics().unwrap_or_default();
+        Ok::<_, String>((truth::fmt::stringify(&block), diag))
+    }));
+    let (text, diag) = match r {
+        Err(p) => return ("panic".into(), vec![Failure { signature: format!("C13:{}", p.signature()), detail: detail(json!({"panic": p.text})) }]),
+        Ok(Err(e)) => return ("raise-failed".into(), vec![Failure { signature: format!("C13:pair-raise-failed:{sigbase}"), detail: detail(json!({"error": e})) }]),
+        Ok(Ok(x)) => x,
+    };
+    if !diag.is_empty() { return ("decompile-warned".into(), vec![]); }
+    let folded = text.contains("if (");
+    let r = catch(|| with_truth(&mapfile, |truth| {
+        let block = front_end(truth, &text, true).map_err(|(s, d)| format!("reparse rejected at {s}: {d}"))?;
+        tl::validate_difficulty(truth, &hooks, &block)?;
+        let des = desugar(truth, &block).map_err(|d| format!("desugar: {d}"))?;
+        let (instrs2, _) = tl::lower(truth, &hooks, &des.0, false).map_err(|d| format!("lower: {d}"))?;
+        Ok::<_, String>(instrs2)
+    }));
+    match r {
+        Err(p) => ("panic".into(), vec![Failure { signature: format!("C13:{}", p.signature()), detail: detail(json!({"panic": p.text, "text": text})) }]),
+        Ok(Err(e)) => ("recompile-failed".into(), vec![Failure { signature: format!("C13:pair-recompile-failed:{sigbase}"), detail: detail(json!({"error": e, "text": text})) }]),
+        Ok(Ok(instrs2)) => {
+            if instrs2 != instrs { ("recompile-differs".into(), vec![Failure { signature: format!("C13:pair-recompile-differs:{sigbase}"), detail: detail(json!({"text": text, "original": fmt_instrs(&instrs), "recompiled": fmt_instrs(&instrs2)})) }]) }
+            else { (if folded { "pair-folded-ok".into() } else { "pair-kept-ok".into() }, vec![]) }
+        }
+    }
+}
+
 fn gen_compile_case(ch: &mut Chooser, n: usize, depth: u32) -> (String, Vec<Exp>, bool) {
     let mut marker = 0;
     let items = gen_items(ch, n, depth, &mut marker);
@@ -292,7 +348,7 @@ fn gen_compile_case(ch: &mut Chooser, n: usize, depth: u32) -> (String, Vec<Exp>
 }
 
 #[derive(Clone)]
-enum Work { Compile { body: String, expected: Vec<Exp>, nontrivial: bool, n: usize, depth: u32, choices: Vec<u32> }, Decompile { times: Vec<i32>, jumps: Vec<(usize, usize, u8)> }, Run { masks: Vec<u8>, times: Vec<i32>, same: bool, tail: i32 } }
+enum Work { Compile { body: String, expected: Vec<Exp>, nontrivial: bool, n: usize, depth: u32, choices: Vec<u32> }, Decompile { times: Vec<i32>, jumps: Vec<(usize, usize, u8)> }, Run { masks: Vec<u8>, times: Vec<i32>, same: bool, tail: i32 }, Pair { t: (i32, i32), d: (u8, u8), retarget: u8 } }
 
 pub fn run(tier: &str) -> Report {
     let mut rep = Report::new("C13", tier, "model_checking");
@@ -338,6 +394,9 @@ pub fn run(tier: &str) -> Report {
             }}
         }
     }
+    for tc in [0, 10] { for tj in [0, 10, 15] { for dc in [0xFFu8, 0xF1, 0xF2] { for dj in [0xFFu8, 0xF1, 0xF2] { for retarget in 0..3u8 {
+        work.push(Work::Pair { t: (tc, tj), d: (dc, dj), retarget });
+    }}}}}
     let n_runs = work.len() - n_before_runs;
     rep.states = work.len() as u64;
     rep.transitions += (work.len() - n_compile) as u64;
@@ -350,12 +409,14 @@ pub fn run(tier: &str) -> Report {
         },
         Work::Decompile { times, jumps } => check_decompile(&table, &mapfile, times, jumps),
         Work::Run { masks, times, same, tail } => check_decompile_run(&table, masks, times, *same, *tail),
+        Work::Pair { t, d, retarget } => check_decompile_pair(t.0, t.1, d.0, d.1, *retarget),
     });
     for (i, r) in results.into_iter().enumerate() {
         let Some((class, failures)) = r else { rep.cap_hit = Some("wall cap".into()); continue; };
         rep.evaluations += 1; rep.traces_validated += 1;
         match &work[i] {
             Work::Compile { nontrivial, body, .. } => { rep.outcome(&format!("compile:{class}")); if *nontrivial { rep.nontrivial += 1; } if i % 5003 == 0 { rep.sample(json!({"compile": body})); } },
+            Work::Pair { t, d, .. } => { rep.outcome(&format!("decompile:{class}")); if t.0 != t.1 || d.0 != d.1 { rep.nontrivial += 1; } },
             Work::Run { masks, times, .. } => {
                 rep.outcome(&format!("decompile:{class}"));
                 if times.windows(2).any(|w| w[0] != w[1]) { rep.nontrivial += 1; }
@@ -371,7 +432,7 @@ pub fn run(tier: &str) -> Report {
         rep.failures.extend(failures);
     }
     rep.exhaustive = true;
-    rep.bound_completed = format!("compile: <= {max_items} items, nesting <= {depth}, deviations <= {bound} ({n_compile} programs); decompile: every stored-time sequence of length <= {max_len} over {:?} with 0 or 1 jump (any position, any target, 3 time-arg modes); {n_runs} foldable difficulty runs ({} mask tilings x every assignment of times from {:?} x same/different values x tail time)", STORED_TIMES, RUN_TILINGS.len(), RUN_TIMES);
+    rep.bound_completed = format!("compile: <= {max_items} items, nesting <= {depth}, deviations <= {bound} ({n_compile} programs); decompile: every stored-time sequence of length <= {max_len} over {:?} with 0 or 1 jump (any position, any target, 3 time-arg modes); {n_runs} foldable difficulty runs ({} mask tilings x every assignment of times from {:?} x same/different values x tail time, plus two-part cmp+jmp pairs x times x masks x a jump landing between them)", STORED_TIMES, RUN_TILINGS.len(), RUN_TIMES);
     rep.rule = "compile: E-DFS over sequences of {abs label, rel label (incl. const-expr and i32::MAX deltas), marker, loop/if/times/free block}; decompile: full product of stored times; non-trivial = >= 2 label kinds / block present, or >= 2 distinct stored times or a jump".into();
     rep.assumptions = vec!["M3 label arithmetic (harness model) with 32-bit wrap".into(), "instruction meaning decoded by the harness's own table".into()];
     rep.explanation = "compile: RawInstr.time of every marker, loop back-jump (and its time argument), if-jump, times assignment and counting jump compared with M3; decompile: M3 applied to the printed text must reproduce every stored time, and recompiling must reproduce the RawInstrs bit for bit".into();
@@ -381,7 +442,10 @@ pub fn run(tier: &str) -> Report {
 pub fn replay(detail: &serde_json::Value) -> i32 {
     let table = Table::new(&TableCfg::FULL);
     let mapfile = table.mapfile_text(REGS);
-    let (class, failures) = if detail["family"] == "decompile-run" {
+    let (class, failures) = if detail["family"] == "decompile-pair" {
+        let g = |k: &str| detail[k].as_i64().unwrap_or(0);
+        check_decompile_pair(g("t_cmp") as i32, g("t_jmp") as i32, g("d_cmp") as u8, g("d_jmp") as u8, g("retarget") as u8)
+    } else if detail["family"] == "decompile-run" {
         let masks: Vec<u8> = detail["masks"].as_array().unwrap().iter().map(|v| v.as_u64().unwrap() as u8).collect();
         let times: Vec<i32> = detail["times"].as_array().unwrap().iter().map(|v| v.as_i64().unwrap() as i32).collect();
         check_decompile_run(&table, &masks, &times, detail["same_vals"].as_bool().unwrap_or(false), detail["tail_time"].as_i64().unwrap_or(0) as i32)
